@@ -321,8 +321,10 @@ def poison_prefix(ops):
                 if g != t:
                     variants.append({**sp, "t": g})
         if t in ("F.Displace", "F.Squeeze"):
-            variants = [v for v in variants if abs(complex(v.get("re", 0), v.get("im", 0))) < 1.3]
+            # small amplitudes only, and (below) every one on a vacuum mode of its own: repeated
+            # squeezing of one mode drives its cut-off, and the step time, out of every budget
             variants.append({**sp, "re": -sp.get("re", 0.0), "im": -sp.get("im", 0.0)})
+            variants = [v for v in variants if abs(complex(v.get("re", 0), v.get("im", 0))) < 0.75][:2]
         kinds = sp.get("kinds") or [t[0]]
         for v in variants:
             if v == sp or len(kinds) > 2:
@@ -348,6 +350,10 @@ def poison_prefix(ops):
                     ok = False
             if not ok or len(set(on)) != len(on):
                 continue
+            if v.get("t") in ("F.Displace", "F.Squeeze") or (v.get("t") == "F.Expr" and v.get("form") == "rot"):
+                fresh = f"e8{n}"
+                emit({"do": "mk_env", "name": fresh, "fock": 0, "pol": "H"})
+                on = [fresh + ".f"]
             if len(on) == 1:
                 emit({"do": "op", "entry": "state", "op": nm, "on": on})
             else:
